@@ -14,7 +14,7 @@ ORACLES = ['c06', 'log']
 
 def run(ctx):
     histcheck.run_property(ctx, PROFILES, ORACLES, n_quick=40, n_thorough=500, nsteps=32 if ctx.quick() else 45,
-                           own_oracle="c06")
+                           own_oracle="c06", with_extras=True)
 
 
 def replay(ctx, path):
